@@ -41,6 +41,7 @@ class RaiseSpec:
     unchanged: bool = True         # frame: every heap field is left as it was
     tag: str = ""
     post: Callable | None = None   # fn(old, new) -> clauses that must hold in the state the exception leaves behind
+    origin: str | None = None      # only exceptions produced by the contract of this callee (substring of its qualified name)
 
 
 @dataclass
